@@ -410,6 +410,23 @@ class LoginDevice:
         return bytes(out)
 
 
+def _think_write(t, channel_input):
+    """rig transports: (i) a slow device — silent for `think` seconds after a return, then it answers; with `think_marker`
+    only ONCE, after the return that follows the first write containing the marker (the command itself; `think` = 1e9:
+    silent for good); (ii) the driver-level timeout_ops as the channel sees it at the moment the marked command is
+    written = the limit in force for that operation"""
+    if t.think_marker is not None and t.think_marker in channel_input:
+        t._marked = True
+        if t.seen is not None and t.chan_args is not None:
+            t.seen.append(t.chan_args.timeout_ops)
+    if t.think and channel_input.endswith(b"\n"):
+        if t.think_marker is None:
+            t.think_until = time.monotonic() + t.think
+        elif t._marked and not t._thought:
+            t._thought = True
+            t.think_until = time.monotonic() + t.think
+
+
 def _block_classes():
     from scrapli.decorators import timeout_wrapper
     from scrapli.exceptions import ScrapliConnectionError
@@ -417,12 +434,12 @@ def _block_classes():
 
     class BlockSim(SimTransport):
         close_wakes, release_at, obs, think, think_until = True, None, None, 0, 0
+        think_marker, chan_args, seen, _marked, _thought = None, None, None, False, False
 
         def write(self, channel_input):
             if self.obs is not None and not self.obs:
                 self.obs.append(_sig_ctx())
-            if self.think and channel_input.endswith(b"\n"):      # a slow device: silent for a while, then it answers
-                self.think_until = time.monotonic() + self.think
+            _think_write(self, channel_input)
             return SimTransport.write(self, channel_input)
 
         @timeout_wrapper
@@ -438,12 +455,12 @@ def _block_classes():
 
     class ABlockSim(AsyncSimTransport):
         close_wakes, release_at, obs, think, think_until = True, None, None, 0, 0
+        think_marker, chan_args, seen, _marked, _thought = None, None, None, False, False
 
         def write(self, channel_input):
             if self.obs is not None and not self.obs:
                 self.obs.append(_sig_ctx())
-            if self.think and channel_input.endswith(b"\n"):
-                self.think_until = time.monotonic() + self.think
+            _think_write(self, channel_input)
             return AsyncSimTransport.write(self, channel_input)
 
         _reading = False
@@ -678,6 +695,166 @@ def run_stack_case(c):
                lock_free=(not lk.locked()) if lk is not None else True, mech_seen=mech_seen,
                nreads=sum(1 for x in t.trace if x[0] == "R"))
     return res
+
+
+# ---- (D) driver operations with the per-call `timeout_ops=` keyword (timeout_modifier over the channel operations)
+DRV_OPS = {"generic": ("send_command", "send_commands", "send_interactive", "send_and_read"),
+           "cisco_iosxe": ("send_command", "send_commands", "send_config", "send_configs", "send_interactive")}
+DRV_CHANNEL_OP = {"send_command": "send_input", "send_commands": "send_input", "send_config": "send_input", "send_configs": "send_input",
+                  "send_interactive": "send_inputs_interact", "send_and_read": "send_input_and_read"}
+
+
+def run_drv_case(c):
+    """a public driver operation on the real (Async)GenericDriver / (Async)IOSXEDriver over BlockSim, driver-level
+    timeout_ops `t_drv`, keyword `kw` ("absent": not passed, "none": timeout_ops=None, else ticks; 0 spelt c["zero"]).
+    The device answers at once (never), is silent for THINK after the command's return and then answers (slow), or is
+    silent for good from there (silent).  Observed: outcome, elapsed, the timeout_ops the channel found when the command
+    was written, the driver-level value afterwards, closed, process-wide state."""
+    from harness.simdevice import CliDevice
+    from harness.simtransport import make_conn, named
+    from scrapli.exceptions import ScrapliTimeout
+    from scrapli.settings import Settings
+    BlockSim, ABlockSim = _block_classes()
+    is_async = c["stack"] == "async"
+    zero = _zero(c.get("zero", "int"))
+    t_drv = c["t_drv"] * TICK if c["t_drv"] else zero
+    t_tr = c["t_tr"] * TICK if c["t_tr"] else 0
+    dev = CliDevice(c["platform"], outputs=lambda m, l: OUTPUT)
+    cls = named(ABlockSim if is_async else BlockSim, c["cls"])
+    conn, t = make_conn(c["platform"], dev, stack=c["stack"], transport_cls=cls, on_empty="block",
+                        timeout_ops=t_drv or 0, timeout_transport=t_tr, channel_lock=True)
+    conn._base_channel_args.timeout_ops = t_drv
+    t.close_wakes, t.obs, t.seen, t.chan_args, t.think_marker = True, [], [], conn._base_channel_args, CMD.encode()
+    t.think = {"never": 0, "slow": THINK * TICK, "silent": 1e9}[c["stall"]]
+    kwargs = {}
+    if c["kw"] == "none":
+        kwargs["timeout_ops"] = None
+    elif c["kw"] != "absent":
+        kwargs["timeout_ops"] = c["kw"] * TICK if c["kw"] else zero
+    op = c["op"]
+    args = {"send_command": (CMD,), "send_commands": ([CMD, "show clock"],), "send_config": (CMD,), "send_configs": ([CMD, "show clock"],),
+            "send_interactive": ([(CMD, "line three", False)],), "send_and_read": (CMD,)}[op]
+    res = {}
+
+    def text(x):
+        return x.result if hasattr(x, "result") else "\n".join(y.result for y in x)
+
+    async def arun():
+        before_t = set(asyncio.all_tasks())
+        await t.open()
+        t.release_at = time.monotonic() + RELEASE * TICK
+        res["t0"] = time.monotonic()
+        try:
+            return await getattr(conn, op)(*args, **kwargs)
+        finally:
+            res["elapsed"] = time.monotonic() - res["t0"]
+            await asyncio.sleep(0)
+            await asyncio.sleep(0)
+            me = asyncio.current_task()
+            res["tasks_left"] = sorted(getattr(x.get_coro(), "__qualname__", "?") for x in asyncio.all_tasks()
+                                       if x not in before_t and x is not me and not x.done())
+
+    def body():
+        res["t0"] = time.monotonic()
+        try:
+            if is_async:
+                out = asyncio.run(arun())
+            else:
+                t.open()
+                t.release_at = time.monotonic() + RELEASE * TICK
+                res["t0"] = time.monotonic()
+                out = getattr(conn, op)(*args, **kwargs)
+            res["out"], res["msg"], res["exc"], res["result_ok"] = "ret", None, None, "line three" in text(out)
+        except ScrapliTimeout as e:
+            res["out"], res["msg"], res["exc"] = "timeout", str(e), type(e).__name__
+        except BaseException as e:  # noqa
+            res["out"], res["msg"], res["exc"] = "error", str(e)[:200], type(e).__name__
+        res.setdefault("elapsed", time.monotonic() - res["t0"])
+
+    old_nt = Settings.NO_TERMINATE_ON_TIMEOUT
+    Settings.NO_TERMINATE_ON_TIMEOUT = False
+    try:
+        h0 = signal.getsignal(signal.SIGALRM)
+        before = set(threading.enumerate())
+        with Heartbeat() as hb:
+            if c.get("thread") == "other":
+                th = threading.Thread(target=body, name="c07-caller")
+                th.start()
+                th.join()
+            else:
+                body()
+            after_threads = [x.name for x in threading.enumerate() if x not in before and x.name != "c07-heartbeat"]
+            h1 = signal.getsignal(signal.SIGALRM)
+            i1 = signal.getitimer(signal.ITIMER_REAL)
+        res["hb_gap"] = hb.gap
+    finally:
+        Settings.NO_TERMINATE_ON_TIMEOUT = old_nt
+        signal.setitimer(signal.ITIMER_REAL, 0)
+        signal.signal(signal.SIGALRM, signal.SIG_DFL)
+    res.pop("t0", None)
+    lk = conn.channel.channel_lock
+    after = conn._base_channel_args.timeout_ops
+    res.update(closed=not t.isalive(), handler_same=h1 is h0, itimer_after=i1[0], threads_new=after_threads,
+               lock_free=(not lk.locked()) if lk is not None else True,
+               seen=[None if x is None else float(x) for x in t.seen], after=None if after is None else float(after),
+               after_type=type(after).__name__)
+    return res
+
+
+def drv_eff(c):
+    """the PROPERTY's reading: None / not given keeps the driver-level value, anything else is the limit of this call"""
+    return c["t_drv"] if c["kw"] in ("absent", "none") else c["kw"]
+
+
+def drv_oracle(c, r):
+    """[(viol, text)] — the property on the real observables of one driver-rig run (never consults the model)"""
+    out = []
+    eff = drv_eff(c)
+    chan = DRV_CHANNEL_OP[c["op"]]
+    if r.get("hung"):
+        return [("hung", "the driver operation did not come back although every blocked read is released after 1.4 s")]
+    seen = r.get("seen") or []
+    if any(x is None or abs(x - eff * TICK) > 1e-9 for x in seen):
+        out.append(("limit_in_force", f"the operation ran under timeout_ops={seen} — driver-level {c['t_drv'] * TICK:g}, keyword {c['kw']!r}: "
+                                      f"the limit in force must be {eff * TICK:g}" + (" (0 = no limit)" if not eff else "")))
+    if r.get("after") is None or abs(r["after"] - c["t_drv"] * TICK) > 1e-9:
+        out.append(("not_restored", f"driver-level timeout_ops after the call is {r.get('after')!r}, was {c['t_drv'] * TICK:g}"))
+    armed = [x for x in (eff, c["t_tr"]) if x]
+    tight = TIGHT + 0.1
+    el = r["elapsed"]
+    if c["stall"] == "never" or (c["stall"] == "slow" and all(x >= THINK + 2 for x in armed)):
+        if r["out"] != "ret" or not r.get("result_ok"):
+            out.append(("zero_not_disabled" if not eff else "spurious",
+                        ("the limit in force is 0 (disabled)" if not eff else f"the limit in force is {eff * TICK:g} s")
+                        + (f" and the device answers after {THINK * TICK:g} s of silence" if c["stall"] == "slow" else " and the device answers at once")
+                        + f": the operation must complete, got {r['out']} {r.get('exc')} {r.get('msg')!r} after {el:.2f}s"))
+        elif c["stall"] == "slow" and el < THINK * TICK - 0.05:
+            out.append(("early", "completed faster than the silence of the device: the rig is broken"))
+        if r["out"] != "timeout" and r["closed"]:
+            out.append(("closed_iff", "transport closed although no ScrapliTimeout was raised"))
+    elif armed and (c["stall"] == "silent" or min(armed) <= THINK - 1):
+        limit = min(armed) * TICK
+        if r["out"] != "timeout" or r.get("exc") != "ScrapliTimeout":
+            out.append(("no_timeout", f"the device does not answer within the limit in force ({limit:g} s): no ScrapliTimeout, got {r['out']} {r.get('exc')} after {el:.2f}s"))
+        else:
+            if el > limit + tight:
+                out.append(("late", f"ScrapliTimeout {el:.2f}s after the start, limit in force {limit:g} s"))
+            if el < limit - EPS:
+                out.append(("early", f"ScrapliTimeout after {el:.2f}s, before the limit in force {limit:g} s"))
+            ok_msgs = {ORACLE_MESSAGES[n] for n, x in ((chan, eff), ("read", c["t_tr"])) if x}
+            if r["msg"] not in ok_msgs:
+                out.append(("message", f"timeout message {r['msg']!r} not in {sorted(ok_msgs)}"))
+            if not r["closed"]:
+                out.append(("closed_iff", "on timeout the transport must be closed (NO_TERMINATE_ON_TIMEOUT is off)"))
+    if not r["handler_same"] or r["itimer_after"]:
+        out.append(("handler_not_restored", "SIGALRM handler / timer changed"))
+    if r["threads_new"]:
+        out.append(("thread_left", f"a worker thread is still running after the call: {r['threads_new']}"))
+    if not r["lock_free"]:
+        out.append(("lock_left", "the channel lock is still held after the call"))
+    if r.get("tasks_left"):
+        out.append(("task_left", f"a task created by the operation is still pending: {r['tasks_left']}"))
+    return out
 
 
 # ---- (R) real transports on loopback rigs
@@ -1154,6 +1331,8 @@ def run_case(c):
         return run_race_case(c)
     if kind == "slow":
         return run_slow_case(c)
+    if kind == "drv":
+        return run_drv_case(c)
     raise ValueError(kind)
 
 
@@ -1429,6 +1608,132 @@ def stack_cases(rng, tier):
     return pick[:80] + lib
 
 
+DRV_CONFS = [("sync", "signal", "ParamikoTransport", "main"), ("sync", "thread", "SystemTransport", "main"),
+             ("sync", "thread", "TelnetTransport", "main"), ("sync", "thread", "Ssh2Transport", "other"),
+             ("async", "asyncio", "AsyncsshTransport", "main")]
+
+
+def drv_cases(rng, tier):
+    """(D) every public driver operation that takes `timeout_ops=` x mechanism configuration x driver-level timeout_ops
+    {0, 0.2, 0.5} x keyword {not given, None, 0, 0.0, 0.2, 0.5, 0.8} on a device that answers at once (exhaustive: which
+    limit is in force / is the driver-level value back), plus timed runs on a slow-but-answering and on a silent device"""
+    out = []
+    pairs = [(pl, op) for pl, ops in DRV_OPS.items() for op in ops]
+    kws = [("absent", "int"), ("none", "int"), (0, "int"), (0, "float"), (2, "int"), (5, "int"), (8, "int")]
+    for (stack, mech, cls, thread), (pl, op), t_drv, (kw, z) in itertools.product(DRV_CONFS, pairs, (0, 2, 5), kws):
+        out.append({"kind": "drv", "stack": stack, "mech": mech, "cls": cls, "thread": thread, "platform": pl, "op": op, "t_drv": t_drv,
+                    "kw": kw, "zero": z if (kw == 0 or t_drv) else rng.choice(["int", "float"]), "t_tr": 0, "stall": "never"})
+    timed = [(2, 0, 0, "slow"),           # keyword 0 over a positive driver-level value: no limit for this call
+             (0, "absent", 0, "slow"),    # driver-level 0: no limit
+             (2, 8, 0, "slow"),           # keyword larger than the driver-level value: completes
+             (8, 2, 0, "slow"),           # keyword smaller: times out at the keyword's value
+             (0, 2, 0, "silent"),         # positive keyword over a disabled driver-level limit
+             (5, 2, 0, "silent"), (2, 5, 0, "silent"), (2, "none", 0, "silent"), (2, "absent", 0, "silent"),
+             (2, 0, 5, "slow"),           # ops disabled by the keyword, transport limit longer than the silence
+             (0, 0, 2, "silent")]         # ops disabled twice: the transport read's own limit remains
+    for (stack, mech, cls, thread), (pl, op) in itertools.product(DRV_CONFS, pairs):
+        sel = timed if tier == "thorough" else [timed[0]] + rng.sample(timed[1:], 3)
+        for t_drv, kw, t_tr, stall in sel:
+            if mech == "signal" and (t_tr or (op == "send_and_read" and stall != "never")):
+                # a decorated read armed under the signal mechanism (send_and_read arms the read with int(read_duration)):
+                # finding F18-nested, not reachable with the in-tree transports — covered by the program rig
+                continue
+            if op == "send_and_read" and t_tr:
+                # send_and_read replaces timeout_transport by int(read_duration) (2 s) while it reads: the configured
+                # transport limit is not the one in force there (C02 / C14's ground); the rig's read gives up after 1.4 s
+                continue
+            out.append({"kind": "drv", "stack": stack, "mech": mech, "cls": cls, "thread": thread, "platform": pl, "op": op, "t_drv": t_drv,
+                        "kw": kw, "zero": rng.choice(["int", "float"]), "t_tr": t_tr, "stall": stall})
+    return out
+
+
+def drv_model_lines(c):
+    v = "async" if c["stack"] == "async" else "sync"
+    kw = "-" if c["kw"] in ("absent", "none") else str(c["kw"])
+    tail = {"never": ["ret"], "slow": ["call", c["t_tr"], "read", ["work", THINK, ["ret"]], ["ret"]],
+            "silent": ["call", c["t_tr"], "read", ["hang"], ["ret"]]}[c["stall"]]
+    body = dehang(tail, 0, RELEASE)
+    return [f"mod {v} {c['t_drv']} {kw}",
+            " ".join(["modop", v, str(c["t_drv"]), kw, c["mech"], "0", "1", DRV_CHANNEL_OP[c["op"]]] + prog_tokens(body))]
+
+
+def evaluate_drv(ck, cases, results, mo):
+    """(a) model (modifier / modifiedOp with the GENERATED shapes) vs the real run; (b) drv_oracle"""
+    for i, (c, r) in enumerate(zip(cases, results)):
+        case = {k: v for k, v in c.items() if k not in ("hard_timeout", "note", "finding")}
+        eff = drv_eff(c)
+        if r is None or r.get("harness_error"):
+            raise_harness(ck, f"driver rig failed on {case}: {r}")
+            continue
+        timing = c["stall"] != "never"
+        attempts = [r]
+        m = None
+        if mo is not None:
+            m = parse_model(mo[2 * i + 1].split(" ", 1)[1])
+
+        def time_off(rr):
+            """model time vs the run (send_and_read re-arms the read underneath with int(read_duration): C02/C14's ground)"""
+            return bool(timing and m is not None and m["fin"] is not None and not rr.get("hung") and c["op"] != "send_and_read"
+                        and timing_ok(rr["elapsed"], m["fin"] * TICK, TIGHT + 0.1) != "ok")
+        viols = drv_oracle(c, r)
+        TIMING = ("late", "early", "no_timeout", "spurious", "zero_not_disabled", "hung", "message", "closed_iff")
+        # a stalled machine makes a run late and can turn "finishes inside the limit" into a timeout: re-measure (serially,
+        # up to 3 runs) before believing it; a real difference shows in every attempt
+        while timing and (any(v in TIMING for v, _ in viols) or time_off(r)) and len(attempts) < 3:
+            rr = remeasure(ck, c)
+            if rr is None or rr.get("harness_error"):
+                break
+            attempts.append(rr)
+            v2 = drv_oracle(c, rr)
+            if (not v2 and not time_off(rr)) or len(attempts) == 3:
+                r, viols = rr, v2
+                if not v2 and not time_off(rr):
+                    break
+        ck.case(json.dumps(case, sort_keys=True), nontrivial=(c["kw"] not in ("absent", "none") and c["kw"] != c["t_drv"]) or timing,
+                tags=("drv", c["mech"], f"op={c['op']}", f"stall={c['stall']}", f"drv={c['t_drv']}", f"kw={c['kw']}", f"out={r.get('out')}"),
+                sample={"case": case, "real": {k: r.get(k) for k in ("out", "msg", "elapsed", "seen", "after", "closed")}})
+        if r.get("hung"):
+            ck.violation({**case, "viol": "hung"}, "the driver operation did not come back", matcher)
+            continue
+        if not r.get("seen"):
+            raise_harness(ck, f"driver rig: the marked command was never written in {case}: {r}")
+            continue
+        noisy = all(a.get("hb_gap", 0) > NOISY for a in attempts)
+        # ---- (a) correspondence
+        if mo is not None:
+            md = dict(f.split("=", 1) for f in mo[2 * i].split(" "))
+            after_m = mo[2 * i + 1].split(" ", 1)[0]
+            mism = []
+            if any(x is None or abs(x - int(md["inforce"]) * TICK) > 1e-9 for x in r["seen"]):
+                mism.append(f"limit in force impl={r['seen']} model={int(md['inforce']) * TICK:g}")
+            if r["after"] is None or abs(r["after"] - int(md["after"]) * TICK) > 1e-9 or md["after"] != after_m.split("=")[1]:
+                mism.append(f"driver-level value afterwards impl={r['after']} model={int(md['after']) * TICK:g}")
+            send_and_read = c["op"] == "send_and_read" and timing     # the read under it is re-armed with int(read_duration): C02/C14's ground
+            if not send_and_read:
+                if r["out"] != m["out"] or (r["out"] == "timeout" and r["msg"] != m["msg"] and not (c["t_tr"] and c["t_tr"] == eff)):
+                    mism.append(f"outcome impl={r['out']}/{r.get('msg')} model={m['out']}/{m['msg']}")
+                if r["closed"] != m["closed"]:
+                    mism.append(f"closed impl={r['closed']} model={m['closed']}")
+                if time_off(r):
+                    if noisy:
+                        raise_harness(ck, f"machine too loaded to time {case}")
+                    else:
+                        mism.append(f"time impl={[round(a['elapsed'], 3) for a in attempts]} model={m['fin'] * TICK:g}")
+            if mism:
+                ck.disagree(f"timeout_modifier model vs the real driver operation ({c['stack']})", case, "; ".join(mism))
+            else:
+                ck.traces_validated += 1
+        # ---- (b) oracle
+        info = {**case, "eff": eff, "out": r["out"], "exc": r.get("exc"), "msg": r.get("msg"), "elapsed": round(r["elapsed"], 3),
+                "seen": r["seen"], "after": r["after"], "closed": r["closed"]}
+        for v, text in viols:
+            if v in ("late", "early") and noisy:
+                raise_harness(ck, f"machine too loaded to judge {case}: {text}")
+                continue
+            ck.violation({**info, "viol": v}, f"{c['op']}(…, timeout_ops={c['kw']!r}) on the {c['stack']} {c['platform']} driver with driver-level "
+                         f"timeout_ops {c['t_drv'] * TICK:g} ({c['mech']} mechanism, device: {c['stall']}): {text}", matcher)
+
+
 def select_cases():
     out = []
     for co, cls, main, win, t in itertools.product((False, True), ("SystemTransport", "TelnetTransport", "ParamikoTransport", "Ssh2Transport",
@@ -1516,10 +1821,24 @@ def run(tier, seed):
         ast_set = {tuple(x) for x in t["decorated"]}
         if set(intro) != ast_set:
             ck.proof_broken("translator gen/c07.py", f"decorated methods: AST {sorted(ast_set)} vs introspection {sorted(intro)}")
+        # methods carrying @timeout_modifier, by introspection: the closure of `decorate` holds the wrapped function and the
+        # code object sits in timeout_modifier
+        import scrapli.driver as D
+        import inspect
+        src_lines, first = inspect.getsourcelines(decorators.timeout_modifier)
+        intro_m = []
+        for k in (D.GenericDriver, D.AsyncGenericDriver, D.NetworkDriver, D.AsyncNetworkDriver):
+            for n, f in vars(k).items():
+                w = getattr(f, "__wrapped__", None)
+                if callable(f) and w is not None and f.__code__.co_name == "decorate" \
+                        and f.__code__.co_filename == decorators.__file__ and first <= f.__code__.co_firstlineno < first + len(src_lines):
+                    intro_m.append((k.__name__, n, asyncio.iscoroutinefunction(w)))
+        if set(intro_m) != {tuple(x) for x in t["modifierSites"]}:
+            ck.proof_broken("translator gen/c07.py", f"@timeout_modifier methods: AST {sorted(t['modifierSites'])} vs introspection {sorted(intro_m)}")
     except Exception as e:  # TranslateError or parse failure
         ck.proof_broken("translator gen/c07.py", repr(e))
     # 2 prove
-    ck.prove("ScrapliProps.C07", lemma_files=["ScrapliProps/C07Lemmas.lean", "ScrapliModel/Timeout.lean"])
+    ck.prove("ScrapliProps.C07", lemma_files=["ScrapliProps/C07Lemmas.lean", "ScrapliModel/Timeout.lean", "ScrapliModel/TimeoutModifier.lean"])
     if tier == "thorough":
         ck.leanchecker("ScrapliProps.C07")
     # 3 cases
@@ -1542,6 +1861,8 @@ def run(tier, seed):
     race_res = run_workers(racec, 1, per_case_timeout=20)
     slowc = slow_cases(tier)
     slow_res = run_workers(slowc, nproc, per_case_timeout=30)
+    drvc = [dict(c) for c in corpus if c["kind"] == "drv"] + drv_cases(rng, tier)
+    drv_res = run_workers(drvc, nproc, per_case_timeout=10)
     # pre-filter prog cases for robustness against ties (model under +/- 0.5 tick on a 10x finer scale)
     def fine(p, delta, tdelta=0, depth=0):
         """10x finer time scale; every read longer/shorter by delta; every armed timeout shifted by tdelta * 3 * (depth + 1).
@@ -1697,6 +2018,13 @@ def run(tier, seed):
         if r["out"] == "timeout" and (r["msg"] != ORACLE_MESSAGES.get(c["name"], ORACLE_DEFAULT) or r["closed"] != (not c["no_term"])):
             ck.violation({**info, "viol": "closed_iff"}, "timeout in the epilogue: message / closed-iff", matcher)
     evaluate_slow(ck, slowc, slow_res)
+    try:
+        mo_drv = run_model("C07", [l for c in drvc for l in drv_model_lines(c)])
+    except Exception as e:
+        ck.proof_broken("model driver Drv/C07.lean (mod / modop)", repr(e))
+        mo_drv = None
+    evaluate_drv(ck, drvc, drv_res, mo_drv)
+    ck.extra["driver_rig_runs"] = len(drvc)
     replay_findings(ck, timed, results, rcases)
     ck.extra["timed_runs"] = len(timed) + len(rcases)
     ck.extra["workers"] = nproc
@@ -2068,6 +2396,12 @@ def replay(path):
         return 0 if _get_timeout_message(c["name"]) == c.get("want") else 1
     c.setdefault("close_wakes", True)
     c.setdefault("no_term", False)
+    if c["kind"] == "drv":
+        c = {k: c[k] for k in ("kind", "stack", "mech", "cls", "thread", "platform", "op", "t_drv", "kw", "zero", "t_tr", "stall")}
+        res = run_workers([c], 1, per_case_timeout=20)[0]
+        viols = [("hung", "no result")] if res is None or res.get("harness_error") else drv_oracle(c, res)
+        print(json.dumps({"case": c, "limit_in_force_should_be": drv_eff(c) * TICK, "real": res, "violations": viols}, indent=1, default=str))
+        return 1 if viols else 0
     if c["kind"] == "slow":
         c = {k: c[k] for k in ("kind", "transport", "nopts", "t_ops", "t_tr", "t_sock", "think")}
         res = run_workers([c], 1, per_case_timeout=30)[0]
